@@ -534,6 +534,34 @@ def run_shipped(ns, ctx, spec):
             pass
         except Exception as e_:
             ctx.violation("ecdh_raises", {"curve": cv.name, "exc": fmt_exc(e_), "route": "shared_x_is_zero"}, dict(rp, d0=hex(d0)))
+        # ... and the point (0, sqrt(b)) itself as a PEER key: a valid public key, whatever form it arrives in
+        try:
+            ossl.point_mul(name, None, (0, y0), 1)
+            for y_ in (y0, p - y0):
+                raw0 = bytes(L_) + y_.to_bytes(L_, "big")
+                d1_ = rng.randrange(2, n)
+                want1 = ossl.ecdh(name, d1_, (0, y_))
+                for route in ("bytes_raw", "bytes_uncompressed", "der", "public_point"):
+                    ctx.ev()
+                    ctx.bin("peer_key_with_x_zero")
+                    try:
+                        e1_ = ns.ecdh.ECDH(curve=cv, private_key=K.SigningKey.from_secret_exponent(d1_, curve=cv, hashfunc=hashlib.sha256))
+                        if route == "bytes_raw":
+                            e1_.load_received_public_key_bytes(raw0)
+                        elif route == "bytes_uncompressed":
+                            e1_.load_received_public_key_bytes(b"\x04" + raw0)
+                        elif route == "der":
+                            e1_.load_received_public_key_der(ossl.pub_to_spki(name, (0, y_)))
+                        else:
+                            e1_.load_received_public_key(K.VerifyingKey.from_public_point(ns.ellipticcurve.Point(cv.curve, 0, y_, n), curve=cv))
+                        got1 = e1_.generate_sharedsecret_bytes()
+                        ctx.mon("ECDH.generate_sharedsecret_bytes")
+                        if got1 != want1:
+                            ctx.violation("ecdh_secret_differs_from_openssl:peer_key_with_x_zero", {"curve": cv.name, "route": route}, dict(rp, d0=hex(d1_)))
+                    except Exception as e_:
+                        ctx.violation("valid_public_point_rejected:x_is_zero:" + route, {"curve": cv.name, "exc": fmt_exc(e_)}, dict(rp, d0=hex(d1_)))
+        except ossl.OsslError:
+            pass
     # ---- invalid public points -------------------------------------------------------------------------------------
     L = (p.bit_length() + 7) // 8
     others = [c for c in weierstrass_curves(ns) if c.name != cv.name and (int(c.curve.p()).bit_length() + 7) // 8 == L]
